@@ -159,10 +159,17 @@ Proof. unfold mp_function1, spec_mp_function1, dist2. gen_eq. Qed.
 Lemma ge_mp_call fs ps hs ws basis (x : list R) : mp_call fs ps hs ws basis x = spec_mp_call fs ps hs ws basis x.
 Proof.
   unfold mp_call, spec_mp_call, peak_values. cbv zeta.
-  rewrite (fold_left_ext _ (fun a q => a ++ (fun q => [fst q x (fst (snd q)) (fst (snd (snd q))) (snd (snd (snd q)))]) q))
-    by (intros a [f [p [h w]]]; reflexivity).
-  rewrite fold_left_app_acc2, flat_map_single. cbn [app].
-  destruct basis; [reflexivity|]. rewrite app_nil_r. reflexivity.
+  first
+    [ (* the loop form: possible_values.append(...) in a for statement *)
+      rewrite (fold_left_ext _ (fun a q => a ++ (fun q => [fst q x (fst (snd q)) (fst (snd (snd q))) (snd (snd (snd q)))]) q))
+        by (intros a [f [p [h w]]]; reflexivity);
+      rewrite fold_left_app_acc2, flat_map_single; cbn [app];
+      destruct basis; [reflexivity | rewrite app_nil_r; reflexivity]
+    | (* a comprehension over the same zip *)
+      rewrite (map_ext _ (fun q => fst q x (fst (snd q)) (fst (snd (snd q))) (snd (snd (snd q)))))
+        by (intros [f [p [h w]]]; reflexivity);
+      destruct basis; [reflexivity | rewrite ?app_nil_r; reflexivity]
+    | reflexivity ].
 Qed.
 
 Lemma ge_mp_cp_count minp maxp (sev : R) n u1 u2 : mp_cp_count minp maxp sev n u1 u2 = spec_mp_cp_count minp maxp sev n u1 u2.
@@ -184,9 +191,11 @@ Proof. reflexivity. Qed.
 Lemma ge_noise_post fs (x r : list R) : tl_noise_post fs x r = spec_noise_post fs x r.
 Proof.
   unfold tl_noise_post, spec_noise_post. cbv zeta.
-  rewrite (fold_left_ext _ (fun a q => a ++ (fun q => [match snd q with None => fst q | Some d => nadd (fst q) d end]) q))
-    by (intros a [u [w|]]; reflexivity).
-  rewrite fold_left_app_acc2, flat_map_single. reflexivity.
+  first
+    [ rewrite (fold_left_ext _ (fun a q => a ++ (fun q => [match snd q with None => fst q | Some d => nadd (fst q) d end]) q))
+        by (intros a [u [w|]]; reflexivity);
+      rewrite fold_left_app_acc2, flat_map_single; reflexivity
+    | reflexivity ].
 Qed.
 
 (* ---- the DTLZ family: structural proofs (the run-time forms are kept until the shape lemmas apply) ---- *)
